@@ -5,6 +5,7 @@ package wallet
 import (
 	"time"
 
+	"github.com/btcsuite/btcd/btcutil"
 	"github.com/btcsuite/btcd/chaincfg/chainhash"
 	"github.com/btcsuite/btcwallet/chain"
 	"github.com/btcsuite/btcwallet/waddrmgr"
@@ -101,13 +102,22 @@ func (w *zzC15World) check(label string) {
 	}))
 }
 
-func zzC15(base int32, steps int) {
+func zzC15(base int32, steps int) { zzC15P(base, nil, steps) }
+
+// zzC15P: the evolutions in pre, then `steps` free ones.
+func zzC15P(base int32, pre []int, steps int) {
 	w := &zzC15World{zzWalletWorld: zzNewWalletWorld(base, 3), budget: 100}
 	w.w.wg.Add(1)
 	go w.w.handleChainNotifications()
 	w.check("c15-initial")
-	for s := 0; s < steps; s++ {
-		switch verifrt.Choice(9, "evolution") {
+	for s := 0; s < len(pre)+steps; s++ {
+		ev := 0
+		if s < len(pre) {
+			ev = pre[s]
+		} else {
+			ev = verifrt.Choice(9, "evolution")
+		}
+		switch ev {
 		case 0:
 			w.connectNew(false)
 		case 1:
@@ -197,6 +207,9 @@ func zzC15(base int32, steps int) {
 }
 
 func ZzC15L2()      { zzC15(10001, 2) }
+
+// the wallet transaction confirmed one block BELOW the tip, then any evolution
+func ZzC15TxBelowTipL1() { zzC15P(10001, []int{1, 0}, 1) }
 func ZzC15L3()      { zzC15(10001, 3) }
 func ZzC15L3Low()   { zzC15(1, 3) }
 func ZzC15L4()      { zzC15(10001, 4) }
@@ -319,3 +332,44 @@ func ZzC15StartupRecovery2() { zzC15StartupRecovery(2) }
 func ZzC15Startup1() { zzC15Startup(1) }
 func ZzC15Startup2() { zzC15Startup(2) }
 func ZzC15Startup3() { zzC15Startup(3) }
+
+// ZzC15RescanFinishedThenReorg: the wallet has just started - its initial
+// rescan is running (real batch, RPC and progress handlers), so chain
+// notifications are ignored until the backend reports the rescan finished.
+// Right behind that report (with or without a pause) comes a reorg of depth 1
+// that orphans the block holding a wallet transaction: the disconnect must be
+// honoured whatever the goroutines' relative speed.
+func ZzC15RescanFinishedThenReorg()   { zzC15RescanFinishedThenReorg(0) }
+func ZzC15RescanFinishedThenReorgP1() { zzC15RescanFinishedThenReorg(1) }
+
+func zzC15RescanFinishedThenReorg(bound int) {
+	w := &zzC15World{zzWalletWorld: zzNewWalletWorld(10001, 3), budget: 100}
+	c := w.chain
+	addr := w.newAddress(waddrmgr.KeyScopeBIP0084, false)
+	tx := zzPayTo(addr, 50000, 1)
+	rec, err := wtxmgr.NewTxRecordFromMsgTx(tx, time.Unix(1600000000, 0))
+	zzW(err)
+	m := c.meta(c.tip())
+	zzW(walletdb.Update(w.db, func(dbtx walletdb.ReadWriteTx) error { return w.w.addRelevantTx(dbtx, rec, &m) }))
+	w.txHash = &rec.Hash
+	bb := c.tip()
+	w.txBlock = &bb
+
+	verifrt.PreemptionBound(bound)
+	w.w.SetChainSynced(false)
+	w.startRescanPipeline()
+	zzW(w.w.Rescan([]btcutil.Address{addr}, nil))
+	verifrt.Assert(c.rescans == 1, "c15-rescan-requested")
+	verifrt.Note("rescan finished")
+	c.ntfns <- &chain.RescanFinished{Hash: &m.Hash, Height: m.Height, Time: m.Time}
+	if verifrt.Choice(2, "pause-after-rescan-finished") == 1 {
+		verifrt.Quiesce()
+	}
+	w.disconnectTip()
+	w.check("c15-mid-reorg")
+	w.connectNew(false)
+	w.check("c15")
+	close(w.w.quit)
+	verifrt.Quiesce()
+	verifrt.Reach("c15-end")
+}
